@@ -128,6 +128,9 @@ impl TlsClientHelloReader {
                         .map(|s| s.to_vec())
                         .unwrap_or_default()
                 );
+                // Do not keep the unparsable record: the next bytes would only be appended to
+                // it and fail again, leaving the reader unusable until an explicit reset.
+                self.reset();
                 Err(e)
             }
         }
